@@ -11,6 +11,7 @@ Property prop_C01(const std::string& variant) {
         c.cfg = pick_cfg(ch, kAllCfgs, variant);
         GenOpts o;
         o.id_schemes = ids_for(need_config(c.cfg));
+        o.big_pool = true;
         c.spec = gen_spec(ch, o, size);
         return c;
     };
@@ -104,6 +105,7 @@ Property prop_C03(const std::string& variant) {
         // duplicated definition tuples are legal registrations: a duplicate
         // of D is not strictly more general than D
         o.allow_dup_defs = true;
+        o.big_pool = true;
         c.spec = gen_spec(ch, o, size);
         return c;
     };
@@ -241,6 +243,7 @@ Property prop_C17(const std::string& variant) {
         o.allow_dup_defs = true;
         o.gappy = true;
         o.max_classes = 12;
+        o.big_pool = true;
         c.spec = gen_spec(ch, o, size);
         return c;
     };
